@@ -146,5 +146,34 @@ def run(ctx):
     ok3 = bool(want_same) and bool(want_diff) and all(not s[1] and s[4] == ('bool', True) for s in want_same) and all(s[1] and s[2] and s[3] and s[4] == ('bool', True) for s in want_diff)
     ctx.check(ok3, 'R3', 'smpi_switch_data_segment: loaded == requested -> nothing to do; otherwise mmap(MAP_FIXED) the actor\'s region and record it', where(sw), 'path shapes %s' % sorted(shapes, key=repr),
               key='R3|smpi_switch_data_segment|remap')
+    # ---- R4 the data segment is located by comparing the memory map before and after the application is loaded ------------------------------
+    ctx.rule('R4', 'mmap privatisation set-up: smpi_prepare_global_memory_segment() (snapshot of the memory map) runs before dlopen() of the application, smpi_backup_global_memory_segment() after it', 1)
+    ip = [f for f in P.fns.values() if f['q'].endswith('smpi_init_privatization_no_dlopen') and f.get('blocks')]
+    if len(ip) != 1:
+        ctx.unrecognised('R4', 'smpi_init_privatization_no_dlopen: %d definitions' % len(ip))
+    else:
+        f4 = ip[0]
+
+        def is_mmap_atom(a):
+            return a[0] == 'bin' and a[1] == '==' and 'smpi_cfg_privatization' in repr(a) and 'MMAP' in repr(a)
+
+        def tr4(st, e):
+            mm, seq, bad = st
+            if e.kind == 'branch' and is_mmap_atom(e.atom):
+                if mm is not None and mm != e.pol:
+                    return set()
+                return (e.pol, seq, bad)
+            if e.kind == 'call':
+                nm = e.q.rsplit('::', 1)[-1]
+                if nm in ('smpi_prepare_global_memory_segment', 'dlopen', 'smpi_backup_global_memory_segment'):
+                    tag = {'smpi_prepare_global_memory_segment': 'P', 'dlopen': 'D', 'smpi_backup_global_memory_segment': 'B'}[nm]
+                    return (mm, seq + tag, bad)
+            return None
+        ex4 = abstract_run(A, f4, (None, '', None), tr4)
+        seqs = sorted(set(x[1] for x in ex4['normal'] if x[0] is True))
+        ok4 = bool(seqs) and all(sq == 'PDB' for sq in seqs)
+        ctx.check(ok4, 'R4', 'smpi_init_privatization_no_dlopen (mmap): prepare, dlopen, backup in that order', where(f4),
+                  'sequence(s) under mmap privatisation: %s%s' % (seqs, '' if ok4 else ' - the snapshot taken after the application is loaded already contains its segments, so the size of the data+bss '
+                                                                  'segment to privatise is computed wrong and part of the globals stays shared by all ranks'), key='R4|smpi_init_privatization_no_dlopen|snapshot before load')
     ctx.assume('dlopen privatisation is link-time duplication and is not covered; correctness of the mapping (file descriptors, segment bounds) is not decided')
     return EXPLANATION
